@@ -256,7 +256,8 @@ func (w *gwWorld) readObs(cl *s3c.Client, bucket, key, realVid string, r *s3c.Re
 		return o
 	}
 	o := map[string]any{"status": "ok", "c": w.contentOf(r.Body), "etag": w.etagContent(r.ETag()),
-		"meta": r.Header.Get("X-Amz-Meta-Cid"), "vid": w.symOf(r.Header.Get("X-Amz-Version-Id"))}
+		"meta": r.Header.Get("X-Amz-Meta-Cid"), "vid": w.symOf(r.Header.Get("X-Amz-Version-Id")),
+		"ctype": r.Header.Get("Content-Type"), "cenc": r.Header.Get("Content-Encoding")}
 	if r.BodyErr != nil {
 		o["c"] = "?short"
 	}
